@@ -50,65 +50,8 @@ func c19(c *core.Ctx) {
 	p := c.P
 	fl := ssax.NewFlow()
 
-	// ---------------- R1
+	connectVerdicts(c, "C19.R1")
 	cw := p.Func("server", "(*client).connectWithTimeOut")
-	c.Analysed(fname(cw))
-	regs := fieldCalls(cw, "server.client.register")
-	connacks := staticCalls(cw, p.Func("pkg/packets", "(*Connect).NewConnackPacket"))
-	c.CountCallSites(len(regs) + len(connacks))
-	if len(regs) == 0 {
-		c.Violation("C19.R1", "connectWithTimeOut|register-call", fpos(c, cw), "connectWithTimeOut never registers the client")
-	}
-	for _, h := range []struct{ name, fn string }{{"connectHandler", "(*client).connectHandler"}, {"authHandler", "(*client).authHandler"}} {
-		hf := p.Func("server", h.fn)
-		calls := staticCalls(cw, hf)
-		if len(calls) == 0 {
-			c.Violation("C19.R1", "connectWithTimeOut|"+h.name+"-call", fpos(c, cw), "connectWithTimeOut never calls "+h.name)
-			continue
-		}
-		for i, hc := range calls {
-			if hc.Fn != cw {
-				continue
-			}
-			ei := errResultIndex(hc.Instr)
-			errv := ssax.ResultValue(hc.Instr, ei)
-			key := fmt.Sprintf("connectWithTimeOut|%s#%d", h.name, i)
-			if errv == nil {
-				c.Violation("C19.R1", key+"|error-used", ipos(c, hc.Instr), "the error returned by "+h.name+" is discarded: a rejected CONNECT is accepted")
-				continue
-			}
-			r := ssax.Analyze(cw, ssax.ReachOpts{Pins: map[ssa.Value]ssax.AV{errv: ssax.AVNonNil}, Start: hc.Instr})
-			for j, rg := range regs {
-				c.Check(!r.Reachable(rg.Instr), "C19.R1", fmt.Sprintf("%s|register#%d", key, j), ipos(c, rg.Instr), "register unreachable after an authentication error", "the client is registered (session, subscriptions, will) although "+h.name+" returned an error")
-			}
-			for j, ck := range connacks {
-				c.Check(!r.Reachable(ck.Instr), "C19.R1", fmt.Sprintf("%s|connack#%d", key, j), ipos(c, ck.Instr), "success CONNACK unreachable after an authentication error", "a success CONNACK is built although "+h.name+" returned an error")
-			}
-			// the error must also be what the function-level error variable holds at the deferred verdict:
-			// the value stored to the cell read by the deferred closure derives from this call
-			if cell := errCellOf(cw); cell != nil {
-				stored := false
-				for _, st := range ssax.StoresTo(cell) {
-					if ssax.AnyIn(ssax.Backward(st.Val), func(v ssa.Value) bool { return v == errv }) {
-						stored = true
-					}
-				}
-				c.Check(stored, "C19.R1", key+"|recorded", ipos(c, hc.Instr), "error recorded in the function's error variable", "the error of "+h.name+" is assigned to a shadowing variable: the function-level verdict (and the checks after the switch) never see it")
-			}
-		}
-	}
-	// register result gates the CONNACK too
-	for j, rg := range regs {
-		errv := ssax.ResultValue(rg.Instr, 1)
-		if errv == nil {
-			c.Violation("C19.R1", fmt.Sprintf("connectWithTimeOut|register#%d|error-used", j), ipos(c, rg.Instr), "the error returned by register is discarded")
-			continue
-		}
-		r := ssax.Analyze(cw, ssax.ReachOpts{Pins: map[ssa.Value]ssax.AV{errv: ssax.AVNonNil}, Start: rg.Instr})
-		for k, ck := range connacks {
-			c.Check(!r.Reachable(ck.Instr), "C19.R1", fmt.Sprintf("connectWithTimeOut|register#%d|connack#%d", j, k), ipos(c, ck.Instr), "no success CONNACK when registration failed", "a success CONNACK is sent although register failed")
-		}
-	}
 	// connectHandler forwards hook errors
 	ch := p.Func("server", "(*client).connectHandler")
 	c.Analysed(fname(ch))
@@ -509,4 +452,67 @@ func pinVersionCalls(fn *ssa.Function, pins map[ssa.Value]ssax.AV, ver int64) {
 			pins[call] = ssax.AVInt(ver)
 		}
 	})
+}
+
+// connectVerdicts: registration and the success CONNACK are unreachable once an authentication step failed.
+func connectVerdicts(c *core.Ctx, rule string) {
+	p := c.P
+	cw := p.Func("server", "(*client).connectWithTimeOut")
+	c.Analysed(fname(cw))
+	regs := fieldCalls(cw, "server.client.register")
+	connacks := staticCalls(cw, p.Func("pkg/packets", "(*Connect).NewConnackPacket"))
+	c.CountCallSites(len(regs) + len(connacks))
+	if len(regs) == 0 {
+		c.Violation(rule, "connectWithTimeOut|register-call", fpos(c, cw), "connectWithTimeOut never registers the client")
+	}
+	for _, h := range []struct{ name, fn string }{{"connectHandler", "(*client).connectHandler"}, {"authHandler", "(*client).authHandler"}} {
+		hf := p.Func("server", h.fn)
+		calls := staticCalls(cw, hf)
+		if len(calls) == 0 {
+			c.Violation(rule, "connectWithTimeOut|"+h.name+"-call", fpos(c, cw), "connectWithTimeOut never calls "+h.name)
+			continue
+		}
+		for i, hc := range calls {
+			if hc.Fn != cw {
+				continue
+			}
+			ei := errResultIndex(hc.Instr)
+			errv := ssax.ResultValue(hc.Instr, ei)
+			key := fmt.Sprintf("connectWithTimeOut|%s#%d", h.name, i)
+			if errv == nil {
+				c.Violation(rule, key+"|error-used", ipos(c, hc.Instr), "the error returned by "+h.name+" is discarded: a rejected CONNECT is accepted")
+				continue
+			}
+			r := ssax.Analyze(cw, ssax.ReachOpts{Pins: map[ssa.Value]ssax.AV{errv: ssax.AVNonNil}, Start: hc.Instr})
+			for j, rg := range regs {
+				c.Check(!r.Reachable(rg.Instr), rule, fmt.Sprintf("%s|register#%d", key, j), ipos(c, rg.Instr), "register unreachable after an authentication error", "the client is registered (session, subscriptions, will) although "+h.name+" returned an error")
+			}
+			for j, ck := range connacks {
+				c.Check(!r.Reachable(ck.Instr), rule, fmt.Sprintf("%s|connack#%d", key, j), ipos(c, ck.Instr), "success CONNACK unreachable after an authentication error", "a success CONNACK is built although "+h.name+" returned an error")
+			}
+			// the error must also be what the function-level error variable holds at the deferred verdict:
+			// the value stored to the cell read by the deferred closure derives from this call
+			if cell := errCellOf(cw); cell != nil {
+				stored := false
+				for _, st := range ssax.StoresTo(cell) {
+					if ssax.AnyIn(ssax.Backward(st.Val), func(v ssa.Value) bool { return v == errv }) {
+						stored = true
+					}
+				}
+				c.Check(stored, rule, key+"|recorded", ipos(c, hc.Instr), "error recorded in the function's error variable", "the error of "+h.name+" is assigned to a shadowing variable: the function-level verdict (and the checks after the switch) never see it")
+			}
+		}
+	}
+	// register result gates the CONNACK too
+	for j, rg := range regs {
+		errv := ssax.ResultValue(rg.Instr, 1)
+		if errv == nil {
+			c.Violation(rule, fmt.Sprintf("connectWithTimeOut|register#%d|error-used", j), ipos(c, rg.Instr), "the error returned by register is discarded")
+			continue
+		}
+		r := ssax.Analyze(cw, ssax.ReachOpts{Pins: map[ssa.Value]ssax.AV{errv: ssax.AVNonNil}, Start: rg.Instr})
+		for k, ck := range connacks {
+			c.Check(!r.Reachable(ck.Instr), rule, fmt.Sprintf("connectWithTimeOut|register#%d|connack#%d", j, k), ipos(c, ck.Instr), "no success CONNACK when registration failed", "a success CONNACK is sent although register failed")
+		}
+	}
 }
